@@ -22,8 +22,9 @@ Theorem C14_statement : forall i o, spec_okb i o = true <-> Spec i o.
 Proof. exact spec_okb_iff. Qed.
 Print Assumptions C14_statement.
 
-(* the correspondence compares observations exactly *)
-Theorem C14_obs_eqb : forall a b, obs_eqb a b = true <-> a = b.
+(* the correspondence compares exactly what the statement pins down: everything observed except what
+   propagates out of run() (C01's clause) and the number of cleanups still registered (see Corr.C14.alpha) *)
+Theorem C14_obs_eqb : forall a b, obs_eqb a b = true <-> alpha a = alpha b.
 Proof. exact obs_eqb_spec. Qed.
 Print Assumptions C14_obs_eqb.
 
@@ -67,6 +68,13 @@ Theorem C14_success_iff : forall p,
   <-> completed p = true /\ all_clean p = true /\ o_unrun (model p) = 0.
 Proof. exact success_iff. Qed.
 Print Assumptions C14_success_iff.
+
+(* for programs that leave no delayed call behind, the verdict is decided by the program and the timing alone *)
+Theorem C14_success_iff_no_leftovers : forall p,
+  no_leftovers p ->
+  (In AddSuccess (o_events (model p)) <-> completed p = true /\ all_clean p = true).
+Proof. exact success_iff_no_leftovers. Qed.
+Print Assumptions C14_success_iff_no_leftovers.
 
 (* timeout or interrupt: an error; result.stop() exactly for an interrupt *)
 Theorem C14_cut_is_error : forall p,
